@@ -307,6 +307,18 @@ func (g *gen) genSpec(k int) *ModSpec {
 		}
 		kk := pick(g, kinds, "import-kind")
 		c := pick(g, by[kk], "import-target")
+		if kk == kFunc && g.pct(40, "prefer-re-export") {
+			// functions that are imports in the exporting instance: resolution has to follow the chain
+			var re []cand
+			for _, x := range by[kFunc] {
+				if x.ex.f.def.name != x.mod {
+					re = append(re, x)
+				}
+			}
+			if len(re) > 0 {
+				c = pick(g, re, "re-exported-target")
+			}
+		}
 		im := g.importOf(c, i == badIdx)
 		if im.Kind == kMem {
 			if hasMemImport {
@@ -423,8 +435,11 @@ func (g *gen) genSpec(k int) *ModSpec {
 		}
 		return pick(g, opts, label)
 	}
-	genOp := func(label string) (Op, bool) {
+	genOp := func(label string, callable int) (Op, bool) {
 		var kinds []string
+		if callable > 0 {
+			kinds = append(kinds, "call", "call")
+		}
 		if len(mutInt) > 0 {
 			kinds = append(kinds, "ginc", "ginc", "gsetc")
 		}
@@ -438,6 +453,8 @@ func (g *gen) genSpec(k int) *ModSpec {
 			return Op{}, false
 		}
 		switch kk := pick(g, kinds, label); kk {
+		case "call":
+			return Op{K: kk, A: int64(g.n(0, callable-1, label+"-callee"))}, true
 		case "ginc":
 			return Op{K: kk, A: int64(pick(g, mutInt, label+"-global"))}, true
 		case "gsetc":
@@ -454,7 +471,7 @@ func (g *gen) genSpec(k int) *ModSpec {
 	for i := 0; i < nFuncs; i++ {
 		f := FuncSpec{Sig: pick(g, []int{0, 0, 0, 1, 2, 3}, "func-sig"), ID: int64(k+1)*100 + int64(i) + 1}
 		for j, n := 0, g.n(0, 2, "n-ops"); j < n; j++ {
-			if o, ok := genOp("func-op"); ok {
+			if o, ok := genOp("func-op", v.nIF+i); ok {
 				f.Ops = append(f.Ops, o)
 			}
 		}
@@ -500,7 +517,6 @@ func (g *gen) genSpec(k int) *ModSpec {
 	}
 
 	// ---- active data segments ----
-	failingData := false
 	if v.hasMem && (cur != nil || !v.impMem) {
 		inb := func(label string) DataSpec {
 			l := g.n(0, 4, label+"-len")
@@ -531,7 +547,6 @@ func (g *gen) genSpec(k int) *ModSpec {
 			s.Datas = append(s.Datas, inb("data"))
 		}
 		if g.pct(16, "failing-data") {
-			failingData = true
 			if len(s.Datas) == 0 {
 				s.Datas = append(s.Datas, inb("data-before"))
 			}
@@ -557,7 +572,7 @@ func (g *gen) genSpec(k int) *ModSpec {
 	if g.pct(25, "has-start") {
 		st := &StartSpec{Trap: g.pct(50, "start-traps")}
 		for j, n := 0, g.n(1, 3, "n-start-ops"); j < n; j++ {
-			if o, ok := genOp("start-op"); ok {
+			if o, ok := genOp("start-op", nF); ok {
 				st.Ops = append(st.Ops, o)
 			}
 		}
@@ -588,23 +603,20 @@ func (g *gen) genSpec(k int) *ModSpec {
 		}
 		break
 	}
-	_ = failingData
 	return s
 }
 
-// predictedStage is the stage at which wazero is expected to stop, by its documented rules.
-func (g *gen) predictedStage(p *plan) string {
-	if p.compileReject || !p.wzCompat || p.inst == nil {
-		return "link"
-	}
-	return g.m.postLinkStage(p)
-}
-
+// instStep appends an instantiation step and advances the generator's model with the outcome
+// wazero is expected to produce by its documented rules.
 func (g *gen) instStep(specIdx int, as string) {
 	st := Step{Op: "inst", Spec: specIdx, As: as, Bytes: g.pct(30, "instantiate-from-bytes")}
 	g.c.Script = append(g.c.Script, st)
 	p := g.m.plan(g.c.Specs[specIdx], as)
-	g.m.commit(p, g.predictedStage(p))
+	if p.compileReject || !p.wzCompat || p.inst == nil || p.elemOOB >= 0 || len(p.nullOver) > 0 {
+		g.m.reject()
+		return
+	}
+	g.m.run(p)
 }
 
 // indexOf finds the index at which instance in sees the object obj (-1 if it does not).
@@ -762,6 +774,12 @@ func (g *gen) accStep() {
 			idx := indexOf(in, g.hot)
 			host := g.pct(35, "hot-through-host")
 			for _, a := range in.spec.accessors() {
+				if a.Acc == "gxcall" {
+					if _, isG := g.hot.(*mGlobal); isG && a.Sig == idx && !host {
+						pool = append(pool, a)
+					}
+					continue
+				}
 				if a.Idx != idx || writers[a.Acc] || host {
 					continue
 				}
